@@ -88,6 +88,17 @@ fn judge(sc: &Scn, out: &Outcome) -> Vec<(String, String)> {
             let mut bad = vec![];
             for (s, o) in v.iter().zip(obs.iter()) {
                 for (k, d) in check_conn(s, o) {
+                    if s.is_early() {
+                        // the optimistic-data family has keys of its own; the rules are the same
+                        let how = format!(
+                            "the local client wrote the first {} byte(s) of its upload in the same write as {} and read the proxy's {} only afterwards",
+                            s.early_bytes(),
+                            if s.hello_joined && s.entry.is_socks5() { "its SOCKS5 greeting and request" } else { "the last message of its handshake" },
+                            if s.hello_joined && s.entry.is_socks5() { "method selection and reply" } else { "reply" },
+                        );
+                        bad.push((format!("tcp:{}:early-data:{}:{k}", s.entry.text(), s.mode.text()), format!("{d}; {how}  [{}]", s.line())));
+                        continue;
+                    }
                     bad.push((format!("tcp:{}:{}:{k}", s.entry.text(), s.mode.text()), format!("{d}  [{}]", s.line())));
                 }
             }
@@ -233,7 +244,7 @@ fn random_tcp(r: &mut Rng, tier: Tier, entry: Option<Entry>, mode: Option<Mode>)
         _ => {}
     }
     let slow_ms = if r.chance(1, 6) { *r.pick(&[50u64, 300]) } else { 0 };
-    TcpScn { entry, mode, up, down, upc: chunk_for(r, up), downc: chunk_for(r, down), slow_ms, seed: r.next() % 1_000_000_000, rcvbuf: 0, pace_ms: 0 }
+    TcpScn { entry, mode, up, down, upc: chunk_for(r, up), downc: chunk_for(r, down), slow_ms, seed: r.next() % 1_000_000_000, rcvbuf: 0, pace_ms: 0, early: 0, hello_joined: false }
 }
 
 /// A dialogue after a half-close: the first payload is any size; the direction that stays open carries
@@ -253,9 +264,9 @@ fn random_hold(r: &mut Rng, tier: Tier, entry: Entry, mode: Mode) -> TcpScn {
     let slow_ms = *r.pick(&[0u64, 0, 0, 20, 120]);
     let seed = r.next() % 1_000_000_000;
     if mode == Mode::ClientFirstHold {
-        TcpScn { entry, mode, up: first, down: held, upc: firstc, downc: heldc, slow_ms, seed, rcvbuf: 0, pace_ms: 0 }
+        TcpScn { entry, mode, up: first, down: held, upc: firstc, downc: heldc, slow_ms, seed, rcvbuf: 0, pace_ms: 0, early: 0, hello_joined: false }
     } else {
-        TcpScn { entry, mode, up: held, down: first, upc: heldc, downc: firstc, slow_ms, seed, rcvbuf: 0, pace_ms: 0 }
+        TcpScn { entry, mode, up: held, down: first, upc: heldc, downc: firstc, slow_ms, seed, rcvbuf: 0, pace_ms: 0, early: 0, hello_joined: false }
     }
 }
 
@@ -272,9 +283,9 @@ fn half_close_pass(r: &mut Rng, tier: Tier) -> Vec<Scn> {
             let firstc = chunk_for(r, first);
             let seed = r.next() % 1_000_000_000;
             all.push(if mode == Mode::ClientFirstHold {
-                TcpScn { entry: *e, mode, up: first, down: held, upc: firstc, downc: heldc, slow_ms, seed, rcvbuf: 0, pace_ms: 0 }
+                TcpScn { entry: *e, mode, up: first, down: held, upc: firstc, downc: heldc, slow_ms, seed, rcvbuf: 0, pace_ms: 0, early: 0, hello_joined: false }
             } else {
-                TcpScn { entry: *e, mode, up: held, down: first, upc: heldc, downc: firstc, slow_ms, seed, rcvbuf: 0, pace_ms: 0 }
+                TcpScn { entry: *e, mode, up: held, down: first, upc: heldc, downc: firstc, slow_ms, seed, rcvbuf: 0, pace_ms: 0, early: 0, hello_joined: false }
             });
         };
         // (a) one short answer after the client's half-close
@@ -323,9 +334,9 @@ fn late_pass(r: &mut Rng, tier: Tier) -> Vec<Scn> {
         };
         let seed = r.next() % 1_000_000_000;
         all.push(if mode == Mode::LateTarget {
-            TcpScn { entry, mode, up: bulk, down: short, upc: bulkc, downc: Chunk::Whole, slow_ms, seed, rcvbuf, pace_ms }
+            TcpScn { entry, mode, up: bulk, down: short, upc: bulkc, downc: Chunk::Whole, slow_ms, seed, rcvbuf, pace_ms, early: 0, hello_joined: false }
         } else {
-            TcpScn { entry, mode, up: short, down: bulk, upc: Chunk::Whole, downc: bulkc, slow_ms, seed, rcvbuf, pace_ms }
+            TcpScn { entry, mode, up: short, down: bulk, upc: Chunk::Whole, downc: bulkc, slow_ms, seed, rcvbuf, pace_ms, early: 0, hello_joined: false }
         });
     };
     let start = r.below(ENTRIES.len() as u64) as usize;
@@ -364,11 +375,128 @@ fn late_pass(r: &mut Rng, tier: Tier) -> Vec<Scn> {
     all.chunks(SLOTS).map(|c| Scn::Tcp(c.to_vec())).collect()
 }
 
+/// The entry point kinds of the optimistic-data family: every kind whose handshake the local client speaks.  On the
+/// unchanged code each of them delivers payload that arrives together with (or right behind) the last handshake
+/// message completely and in order (the SOCKS listener hands its negotiation `BufReader` on to the relay, hyper
+/// hands the bytes read past the CONNECT header to the upgraded connection), so the family is judged by the
+/// ordinary rules of `check_conn`.
+const EARLY_ENTRIES: [Entry; 8] = [
+    Entry::Socks4, Entry::Socks4a, Entry::Socks5V4, Entry::Socks5V6, Entry::Socks5Dom, Entry::HttpV4, Entry::HttpV6, Entry::HttpDom,
+];
+
+/// Optimistic data: a local client that does not wait for the proxy's reply before it starts to talk.  The first
+/// `early` bytes of the upload leave IN THE SAME WRITE as the last message of the client's handshake (SOCKS4/4a: the
+/// request; SOCKS5: (a) greeting alone, method selection awaited, then request + payload, (b) `hello=joined`:
+/// greeting + request + payload in one write; HTTP: the CONNECT header + payload), so on loopback they are in the
+/// proxy's receive queue when it reads the request and land in whatever buffer it parses the negotiation from.  Then
+/// the client reads the replies and goes on with the rest of its script, which sends only what is left of the
+/// upload.  A direct connection delivers every byte exactly once and in order; so must the tunnel.  Sizes: 1 byte,
+/// a few dozen, around 500 / 512 (a small parse buffer minus a request), 4096, around the 8 KiB of a default
+/// `BufReader` minus the request, and several times more than such a buffer holds; the whole upload shorter than,
+/// as long as, and longer than the early part.
+fn early_pass(r: &mut Rng, tier: Tier) -> Vec<Scn> {
+    let mut all: Vec<TcpScn> = vec![];
+    let mut mk = |r: &mut Rng, entry: Entry, mode: Mode, early: usize, up: usize, joined: bool, slow_ms: u64| {
+        let down = match mode {
+            Mode::Echo | Mode::ClientDrops => 0,
+            _ => *r.pick(&[0usize, 1, 100, 513, 8193]),
+        };
+        let rest = up.saturating_sub(early);
+        // the chunking of what is left after the early part
+        let upc = chunk_for(r, rest);
+        let downc = chunk_for(r, down);
+        let seed = r.next() % 1_000_000_000;
+        all.push(TcpScn { entry, mode, up, down, upc, downc, slow_ms, seed, rcvbuf: 0, pace_ms: 0, early, hello_joined: joined && entry.is_socks5() });
+    };
+    let longer = [1usize, 513, 8193, 65_536];
+    match tier {
+        Tier::Quick => {
+            // six per entry point kind (seven for the SOCKS5 kinds: the boundary one in both variants)
+            let start = r.below(4) as usize;
+            for (i, e) in EARLY_ENTRIES.iter().enumerate() {
+                let near_512 = [499usize, 500, 512, 513][(start + i) % 4];
+                let j = |k: usize| (i + k) % 2 == 0;
+                mk(r, *e, Mode::Echo, 1, 1, j(0), 0);
+                mk(r, *e, Mode::ClientFirst, [37usize, 24, 64][i % 3], 513, j(1), 0);
+                mk(r, *e, Mode::Echo, near_512, near_512 + longer[(i + 2) % 4], j(0), 0);
+                if e.is_socks5() {
+                    mk(r, *e, Mode::Duplex, near_512, near_512 + longer[(i + 1) % 4], j(1), 0);
+                }
+                mk(r, *e, Mode::ClientDrops, 4096, 4096, j(1), 0);
+                mk(r, *e, [Mode::Duplex, Mode::Echo][i % 2], [20_000usize, 9000, 70_000][i % 3], 65_536 + [20_000usize, 9000, 70_000][i % 3], j(0), 0);
+                mk(r, *e, Mode::ClientFirst, [512usize, 4096, 600][i % 3], [100usize, 300, 499][i % 3], j(1), 0);
+            }
+        }
+        Tier::Thorough => {
+            let modes = [Mode::Echo, Mode::ClientFirst, Mode::Duplex, Mode::ClientDrops, Mode::TargetCloses, Mode::TargetFirst, Mode::ClientFirstHold];
+            let mut n = 0usize;
+            for e in EARLY_ENTRIES {
+                let variants: &[bool] = if e.is_socks5() { &[false, true] } else { &[false] };
+                for joined in variants {
+                    // what else is in the write that carries the early bytes
+                    let hs = tcp::last_handshake_write_len(e, *joined);
+                    let mut earlies = vec![1usize, 2, 37, 64, 499, 500, 511, 512, 513, 4096, 8191, 8192, 8193, 20_000, 70_000];
+                    // a 512-byte and an 8 KiB buffer filled exactly by handshake + payload, one less, one more
+                    for cap in [512usize, 8192] {
+                        earlies.extend([cap - hs - 1, cap - hs, cap - hs + 1]);
+                    }
+                    earlies.sort_unstable();
+                    earlies.dedup();
+                    for early in earlies {
+                        // the whole upload: shorter than, as long as, longer than the early part
+                        let mut ups = vec![early, early + longer[n % 4], early + longer[(n + 1) % 4]];
+                        if early >= 2 {
+                            ups.push(early / 2);
+                        }
+                        for up in ups {
+                            let mode = modes[n % modes.len()];
+                            n += 1;
+                            let slow = if n % 9 == 0 { 50 } else { 0 };
+                            if mode == Mode::ClientFirstHold {
+                                // the upload (early part included) first, then the target answers message by message
+                                mk(r, e, mode, early, up, *joined, [0u64, 20][n % 2]);
+                                let s = all.last_mut().expect("just pushed");
+                                s.down = [1usize, 100, 3000][n % 3];
+                                s.downc = Chunk::Whole;
+                            } else {
+                                mk(r, e, mode, early, up, *joined, slow);
+                            }
+                        }
+                    }
+                    if *joined {
+                        // greeting + request in one write and no payload behind them
+                        mk(r, e, Mode::Echo, 0, 513, true, 0);
+                        mk(r, e, Mode::TargetFirst, 0, 100, true, 0);
+                    }
+                }
+            }
+            // and some by the dice: any close order, any chunking, slow readers
+            for _ in 0..80 {
+                let e = *r.pick(&EARLY_ENTRIES);
+                let mut s = random_tcp(r, Tier::Quick, Some(e), None);
+                if s.up == 0 {
+                    s.up = *r.pick(&[1usize, 100, 513, 8193]);
+                    s.upc = chunk_for(r, s.up);
+                }
+                s.early = match r.below(4) {
+                    0 => s.up,
+                    1 => r.range(1, s.up as u64) as usize,
+                    2 => *r.pick(&[1usize, 37, 499, 500, 512, 513, 4096, 8179, 8192, 20_000]),
+                    _ => r.range(1, 600) as usize,
+                };
+                s.hello_joined = s.entry.is_socks5() && r.chance(1, 2);
+                all.push(s);
+            }
+        }
+    }
+    all.chunks(SLOTS).map(|c| Scn::Tcp(c.to_vec())).collect()
+}
+
 /// Several windows (512 frames) of data against a reader that starts late: 5 MiB in 8 KiB frames.
 fn windows_scn(r: &mut Rng, entry: Entry, upward: bool) -> TcpScn {
     let big = 5 * (1 << 20) + 3;
     let (up, down, mode) = if upward { (big, 10, Mode::ClientFirst) } else { (10, big, Mode::TargetFirst) };
-    TcpScn { entry, mode, up, down, upc: Chunk::Fixed(65536), downc: Chunk::Fixed(65536), slow_ms: 400, seed: r.next() % 1_000_000_000, rcvbuf: 0, pace_ms: 0 }
+    TcpScn { entry, mode, up, down, upc: Chunk::Fixed(65536), downc: Chunk::Fixed(65536), slow_ms: 400, seed: r.next() % 1_000_000_000, rcvbuf: 0, pace_ms: 0, early: 0, hello_joined: false }
 }
 
 fn random_udp(r: &mut Rng, socks: bool) -> UdpScn {
@@ -629,6 +757,8 @@ fn fixed_pass(r: &mut Rng, tier: Tier) -> Vec<Scn> {
     v.extend(half_close_pass(r, tier));
     // late-reading peers, every entry point kind
     v.extend(late_pass(&mut r.fork(4), tier));
+    // optimistic data: payload in the same write as the last handshake message (a sub-stream of its own)
+    v.extend(early_pass(&mut r.fork(6), tier));
     v
 }
 
